@@ -2096,6 +2096,12 @@ api_muladd(unsigned char *A, const unsigned char *B, size_t len,
 	p256_to_affine(&P);
 	p256_encode(A, &P);
 	r &= ~(z & t);
+
+	/*
+	 * A zero multiplier is an error.
+	 */
+	r &= br_ec_multiplier_nonzero(x, xlen)
+		& br_ec_multiplier_nonzero(y, ylen);
 	return r;
 }
 
